@@ -126,7 +126,8 @@ def ChainParsed (env : Prog.Env) : List Bytes → List (Bytes × CertView) → P
 /-- what the dependency steps establish about the SafetyNet response `raw`, and the nonce its payload carries.
     * compact serialisation (`Jws.parse`, `Jws.claims` are Lean functions): the token has the three base64url parts, its protected
       header decodes, every `x5c` entry is a certificate, the first one validates for `attest.android.com` with the others as
-      intermediates, go-jose reaches the signature check (`verifiable`) and the signature verifies under that first certificate's key,
+      intermediates, go-jose reaches the signature check and the signature over the signing input verifies under that first certificate's
+      key with the primitive the header's `alg` names for that key kind (`Jws.SignedBy`, Model/JwsVerify.lean),
       and the payload decodes as SafetyNet claims with this `nonce`;
     * the forms the Lean model does not cover (JSON serialisation, a "jwk" header): the opaque answer of the dependency, as before. -/
 inductive SafetyNetResponse (env : Prog.Env) (raw : Bytes) (nonce : Bytes) : Prop where
@@ -134,8 +135,7 @@ inductive SafetyNetResponse (env : Prog.Env) (raw : Bytes) (nonce : Bytes) : Pro
       (parsed : Jws.parse raw = .ok c)
       (chain : ChainParsed env c.x5c ((der, cert) :: rest))
       (trusted : env.answer (.x509Verify der (rest.map (·.1)) safetyNetDNSName) = .bool true)
-      (verifiable : c.verifiable = true)
-      (signed : env.answer (.jwsVerify raw der) = .bool true)
+      (signed : Jws.SignedBy env raw c der cert.key)
       (claims : Jws.claims c.payload = some nonce)
   | opaque (v : SafetyNetView)
       (unmodelled : Jws.parse raw = .unmodelled)
